@@ -225,7 +225,7 @@ func c03Insert(l []c03Entry, pos int, e c03Entry) []c03Entry {
 func TestVerif_C03_Recover(t *testing.T) {
 	r := verifkit.Start(t, "C03", "recover")
 	defer r.Finish()
-	r.SetRule("PRNG polynomials of degree 1..6 over Z_q (threshold = degree+1), n <= 13 members, message = k*G1; share lists: every index subset of size >= threshold for n <= 6 in index order and in PRNG permutations, one skipped entry (nil / V==nil / negative index with a value) at every position for n <= 5, PRNG lists for n <= 13 with several skipped entries, and lists with fewer than threshold valid entries. RecoverSignature must give msg^f(0), RecoverPublicKey g2^f(0) (below threshold: an error). non-trivial = the list contains a skipped entry or is not in index order")
+	r.SetRule("PRNG polynomials of degree 1..6 over Z_q (threshold = degree+1), n <= 13 members, message = k*G1; share lists: every index subset of size >= threshold for n <= 6 in index order and in PRNG permutations, one skipped entry (nil / V==nil / negative index with a value) at every position for n <= 5, PRNG lists for n <= 13 with several skipped entries, production-sized groups (degree 11..63, up to 255 members, lowest / highest / random index subsets), and lists with fewer than threshold valid entries. RecoverSignature must give msg^f(0), RecoverPublicKey g2^f(0) (below threshold: an error). non-trivial = the list contains a skipped entry or is not in index order")
 	r.Assume("bn256 group arithmetic and pairing are trusted; the expected values are computed by the monitor from the polynomial")
 	rng := r.Rand("worlds")
 	var jobs []c03Job
@@ -320,6 +320,43 @@ func TestVerif_C03_Recover(t *testing.T) {
 				l = c03Insert(l, rng.Intn(len(l)+1), c03RandSkip(rng, n))
 			}
 			jobs = append(jobs, c03Job{w, l, "below-threshold"})
+		}
+	}
+
+	// (e) production-sized groups: thresholds and member indexes large enough
+	// that products of indexes (Lagrange numerators and denominators) exceed
+	// any machine word
+	for _, dn := range [][2]int{{11, 24}, {23, 40}, {32, 64}, {32, 64}, {50, 100}, {40, 255}, {63, 255}} {
+		d, n := dn[0], dn[1]
+		w := newWorld(d, n)
+		worlds = append(worlds, w)
+		for k := 0; k < r.N(4, 30); k++ {
+			var idx []int
+			switch k % 4 {
+			case 0: // lowest indexes in order
+				for x := 1; x <= w.thr; x++ {
+					idx = append(idx, x)
+				}
+			case 1: // highest indexes, descending
+				for x := n; x > n-w.thr; x-- {
+					idx = append(idx, x)
+				}
+			default: // random subset, random order, sometimes more than needed
+				size := w.thr + rng.Intn(n-w.thr+1)
+				for _, x := range rng.Perm(n)[:size] {
+					idx = append(idx, x+1)
+				}
+			}
+			var l []c03Entry
+			for _, x := range idx {
+				l = append(l, c03Entry{kind: 0, idx: x})
+			}
+			if k%4 == 3 {
+				for s := 0; s < 3; s++ {
+					l = c03Insert(l, rng.Intn(len(l)+1), c03RandSkip(rng, n))
+				}
+			}
+			jobs = append(jobs, c03Job{w, l, "large-group"})
 		}
 	}
 
